@@ -379,3 +379,52 @@ Proof.
   destruct rs as [|r0 t]; [reflexivity|]. cbn [rectangularb]. apply forallb_forall. intros r Hr.
   apply Nat.eqb_eq. apply Hrect; [right; exact Hr | left; reflexivity].
 Qed.
+
+(* ---- reference coordinates: exhaustively, in the kernel, on a finite domain (every reference row of
+   length 1..7 over {A, C, gap}, every window of its ungapped residues) ----------------------------------- *)
+Lemma filter_length_le_all {A} (f : A -> bool) l : (length (filter f l) <= length l)%nat.
+Proof. induction l as [|x t IH]; [cbn; lia|]. cbn [filter]. destruct (f x); cbn; lia. Qed.
+
+Fixpoint bwords (n : nat) (alpha : list byte) : list (list byte) :=
+  match n with O => [[]] | S k => flat_map (fun w => map (fun c => c :: w) alpha) (bwords k alpha) end.
+Definition refcoord_ok (ref : list byte) (s l : Z) : bool :=
+  match ref_coordinates [([x72], ref)] [x72] s l with
+  | Some (st, ln, false) =>
+      bytes_eqb (ungapb (firstn (Z.to_nat ln) (skipn (Z.to_nat st) ref)))
+                (firstn (Z.to_nat l) (skipn (Z.to_nat s) (ungapb ref))) &&
+      negb (beqb (nth (Z.to_nat st) ref x2d) x2d) && negb (beqb (nth (Z.to_nat (st + ln - 1)) ref x2d) x2d)
+  | _ => false
+  end.
+Definition refcoord_all (n : nat) : bool :=
+  forallb (fun ref =>
+     let u := Z.of_nat (length (ungapb ref)) in
+     forallb (fun s => forallb (fun l => negb ((0 <=? s) && (0 <? l) && (s + l <=? u)) || refcoord_ok ref s l)
+                               (map Z.of_nat (seq 0 (n + 2)))) (map Z.of_nat (seq 0 (n + 1))))
+          (bwords n [x41; x43; x2d]).
+
+Lemma refcoord_all_small : forallb refcoord_all [1; 2; 3; 4; 5; 6; 7]%nat = true.
+Proof. vm_compute. reflexivity. Qed.
+
+Theorem refcoordinates_small n ref s l :
+  In n [1; 2; 3; 4; 5; 6; 7]%nat -> In ref (bwords n [x41; x43; x2d]) ->
+  (0 <= s)%Z -> (0 < l)%Z -> (s + l <= Z.of_nat (length (ungapb ref)))%Z ->
+  refcoord_ok ref s l = true.
+Proof.
+  intros Hn Hr Hs Hl Hsl. pose proof refcoord_all_small as H. rewrite forallb_forall in H. specialize (H n Hn).
+  unfold refcoord_all in H. rewrite forallb_forall in H. specialize (H ref Hr). cbn zeta in H.
+  assert (Hlen : (length (ungapb ref) <= n)%nat).
+  { assert (G : forall k w, In w (bwords k [x41; x43; x2d]) -> length w = k).
+    { induction k as [|k IH]; intros w Hw; cbn [bwords] in Hw; [destruct Hw as [<-|[]]; reflexivity|].
+      apply in_flat_map in Hw as [w' [Hw' Hc]]. apply in_map_iff in Hc as [c [<- _]]. cbn. f_equal. apply IH. exact Hw'. }
+    rewrite <- (G n ref Hr). unfold ungapb. apply filter_length_le_all. }
+  rewrite forallb_forall in H. specialize (H s).
+  assert (Hin_s : In s (map Z.of_nat (seq 0 (n + 1)))).
+  { apply in_map_iff. exists (Z.to_nat s). split; [lia|]. apply in_seq. lia. }
+  specialize (H Hin_s). rewrite forallb_forall in H. specialize (H l).
+  assert (Hin_l : In l (map Z.of_nat (seq 0 (n + 2)))).
+  { apply in_map_iff. exists (Z.to_nat l). split; [lia|]. apply in_seq. lia. }
+  specialize (H Hin_l).
+  replace ((0 <=? s)%Z && (0 <? l)%Z && (s + l <=? Z.of_nat (length (ungapb ref)))%Z) with true in H.
+  - exact H.
+  - symmetry. rewrite !andb_true_iff. repeat split; [apply Z.leb_le | apply Z.ltb_lt | apply Z.leb_le]; lia.
+Qed.
